@@ -15,9 +15,9 @@ _CLI = None
 
 
 def variants(rnd, members, tier):
-    """yield (tag, archive bytes, index of the touched member or None)"""
+    """yield (tag, archive bytes, index of the touched member or None, the members as written - None when headers may be cut)"""
     base = arc.archive(members)
-    yield 'valid', base, None
+    yield 'valid', base, None, members
     offs = arc.offsets(members)
     for i, x in enumerate(members):
         if x.kind != 'file':
@@ -29,7 +29,7 @@ def variants(rnd, members, tier):
                 continue
             y = arc.Member(dict(x.m, size=newlen), x.packed, x.plain)
             ms = members[:i] + [y] + members[i + 1:]
-            yield 'recorded-length=%s' % ('n+1' if newlen == n + 1 else 'n-1' if newlen == n - 1 else newlen), arc.archive(ms), i
+            yield 'recorded-length=%s' % ('n+1' if newlen == n + 1 else 'n-1' if newlen == n - 1 else newlen), arc.archive(ms), i, ms
         crcs = [x.m['crc'] ^ (1 << b) for b in range(16)] + [rnd.randrange(65536)]
         # values a program might treat as 'no CRC recorded'
         special = [0x0000, 0xffff]
@@ -37,20 +37,20 @@ def variants(rnd, members, tier):
             if c == x.m['crc']:
                 continue
             y = arc.Member(dict(x.m, crc=c), x.packed, x.plain)
-            yield 'recorded-crc-flip', arc.archive(members[:i] + [y] + members[i + 1:]), i
+            yield 'recorded-crc-flip', arc.archive(members[:i] + [y] + members[i + 1:]), i, members[:i] + [y] + members[i + 1:]
         hs, ds, de = offs[i]
         stored = x.m['method'] in (b'-lh0-', b'-lz4-', b'-pm0-')
         positions = range(ds, de) if (stored and de - ds <= 64) else sorted(set(rnd.randrange(ds, de) for _ in range(6))) if de > ds else []
         for p in positions:
             b = bytearray(base)
             b[p] ^= 1 << rnd.randrange(8)
-            yield ('stored-data-bitflip' if stored else 'compressed-data-bitflip'), bytes(b), i
+            yield ('stored-data-bitflip' if stored else 'compressed-data-bitflip'), bytes(b), i, members
     if len(base) <= 400:
         for cut in range(len(base)):
-            yield 'truncated', base[:cut], None
+            yield 'truncated', base[:cut], None, None
     else:
         for cut in sorted(set(rnd.randrange(len(base)) for _ in range(40))):
-            yield 'truncated', base[:cut], None
+            yield 'truncated', base[:cut], None, None
 
 
 def gen_bases(rnd, tier):
@@ -91,7 +91,7 @@ def shard(seed, bases, tier):
     cases = []
     groups = []
     for members in bases:
-        for tag, a, touched in variants(rnd, members, tier):
+        for tag, a, touched, written in variants(rnd, members, tier):
             kind = rnd.choice([0, 2, 2, 3])
             if tag == 'truncated' and kind == 3:
                 kind = 2          # skip-less callbacks on truncated data: that is C13's ground (known F2), keep C07 about verdicts
@@ -99,12 +99,12 @@ def shard(seed, bases, tier):
                   rdh.RCase(a, [(rdh.OP_WALK, 3)], kind=kind, meta=tag),
                   rdh.RCase(a, [(rdh.OP_WALK, 4)], kind=kind, meta=tag)]
             cases += cs
-            groups.append((tag, a, cs, members, touched))
+            groups.append((tag, a, cs, members, touched, written))
 
     def on_crash(case, cls, key, err):
         sh.violation('C07-crash:' + key, '%s on a %s archive: %s' % (cls, case.meta, err[-800:]), case.archive)
     res = rdh.run_batch(_EXE, cases, sh, label='c07', on_crash=on_crash)
-    for tag, a, cs, members, touched in groups:
+    for tag, a, cs, members, touched, written in groups:
         evs = [res.get(c.id) for c in cs]
         if any(e is None for e in evs):
             continue
@@ -138,7 +138,13 @@ def shard(seed, bases, tier):
             if rd is None or ck is None:
                 continue
             out = rd['data']
-            good = (len(out) == h['size']) and (crc16(out) == h['crc'])
+            # the recorded length and CRC are the ones the archive bytes hold (known from the model that wrote them), not whatever
+            # the library says its header holds: a header that has been adjusted to fit the data would make any output look right
+            rec_size, rec_crc = h['size'], h['crc']
+            if written is not None and len(written) == len(r1) and written[idx].kind == 'file':
+                rec_size, rec_crc = written[idx].m['size'], written[idx].m['crc']
+                sh.count('members_judged_against_fields_as_written')
+            good = (len(out) == rec_size) and (crc16(out) == rec_crc)
             meth = h['method'].decode('latin1')
             sh.count('members_judged')
             sh.hist('verdicts', 'good' if good else 'bad')
@@ -147,13 +153,13 @@ def shard(seed, bases, tier):
             if bool(ck['result']) != good:
                 sh.violation('C07-check-verdict:%s:%s:%s' % (meth, tag, 'false-good' if ck['result'] else 'false-bad'),
                              'member %d (%s, recorded length %d crc %04x): read delivered %d bytes with CRC %04x, but lha_reader_check returned %d'
-                             % (idx, meth, h['size'], h['crc'], len(out), crc16(out), ck['result']), a)
+                             % (idx, meth, rec_size, rec_crc, len(out), crc16(out), ck['result']), a)
             if idx < len(r3) and r3[idx][1] is not None and not r3[idx][0]['fake']:
                 ex = r3[idx][1]
                 if bool(ex['result']) != good:
                     sh.violation('C07-extract-verdict:%s:%s:%s' % (meth, tag, 'false-good' if ex['result'] else 'false-bad'),
                                  'member %d (%s): read delivered %d bytes (recorded %d), CRC %04x (recorded %04x), but lha_reader_extract returned %d'
-                                 % (idx, meth, len(out), h['size'], crc16(out), h['crc'], ex['result']), a)
+                                 % (idx, meth, len(out), rec_size, crc16(out), rec_crc, ex['result']), a)
             # consequences the statement spells out
             stored = h['method'] in (b'-lh0-', b'-lz4-', b'-pm0-')
             if stored and tag in ('stored-data-bitflip',) and touched == idx and ck['result']:
@@ -175,13 +181,13 @@ def cli_part(ctx, rnd, bases):
     jobs = []
     n = 0
     for members in bases:
-        for tag, a, touched in variants(rnd, members, 'quick'):
+        for tag, a, touched, written in variants(rnd, members, 'quick'):
             if tag == 'truncated' and rnd.random() < 0.8:
                 continue
             if tag != 'valid' and rnd.random() < 0.6:
                 continue
             n += 1
-            jobs.append((n, tag, a, members))
+            jobs.append((n, tag, a, written))
     jobs = jobs[:400 if ctx.tier == 'quick' else 6000]
 
     def one(j):
@@ -208,11 +214,17 @@ def cli_part(ctx, rnd, bases):
             continue
         verdicts = []
         cur = None
+        nhdr = sum(1 for k, d in ev if k == 'next' and d is not None)
+        hi = -1
         for k, d in ev:
             if k == 'next' and d is not None:
                 cur = d
+                hi += 1
             elif k == 'readall' and cur is not None and cur['method'] != b'-lhd-':
-                good = len(d['data']) == cur['size'] and crc16(d['data']) == cur['crc']
+                rec_size, rec_crc = cur['size'], cur['crc']
+                if members is not None and len(members) == nhdr and members[hi].kind == 'file':
+                    rec_size, rec_crc = members[hi].m['size'], members[hi].m['crc']       # as written in the archive
+                good = len(d['data']) == rec_size and crc16(d['data']) == rec_crc
                 verdicts.append(((cur['path'] or b'') + (cur['filename'] or b''), good, cur))
         ctx.count('cli_runs', 2)
         for mode, (rc, so, se), okword, badword in (('t', t, b'Tested', b'CRC error'), ('x', x, b'Melted', b'Failure')):
